@@ -328,6 +328,26 @@ def handleAgg (j : Json) : R Json := do
       pure (Json.mkObj [("cells", Json.arr (cells.map fun c => jCellOut s (Agg.xcubeAgg s vals exts N c)).toArray)])
   | _ => throw s!"agg kind {kind}"
 
+def handleStats (j : Json) : R Json := do
+  let kind ← fStr j "kind"
+  let pairs : R (List (Rat × Rat)) := do
+    (← arr (← fld j "xs")).toList.mapM fun p => do
+      match (← arr p).toList with
+      | [a, w] => pure ((← parseRat a), (← parseRat w))
+      | _ => throw "pair expected"
+  match kind with
+  | "wquantile" =>
+      match Stats.wquantile (← parseRat (← fld j "p")) (← pairs) with
+      | some x => pure (jRat x)
+      | none => pure Json.null
+  | "var" =>
+      let weighted := match optFld j "weighted" with | some (Json.bool b) => b | _ => false
+      pure (jRat (Stats.varModel weighted (← pairs)))
+  | "stddev_missing" =>
+      let ign := match optFld j "ignore_missing" with | some (Json.bool b) => b | _ => false
+      pure (Json.bool (Stats.stddevMissing ign (← fNat j "valid") (← fNat j "missing")))
+  | _ => throw s!"stats kind {kind}"
+
 def handle (j : Json) : R Json := do
   let op ← fStr j "op"
   match op with
@@ -339,6 +359,7 @@ def handle (j : Json) : R Json := do
       pure (Json.mkObj [("fmt", jNat (Gen.formatWidth s)), ("dtype", Json.str (Gen.wordDtype s).name)])
   | "kern" => handleKern j
   | "agg" => handleAgg j
+  | "stats" => handleStats j
   | "iidx" => handleIdx j
   | "walk" | "count" => handleCube op j
   | "indx_save" | "indx_roundtrip" | "indx_layout" | "indx_load" | "indx_load_prefixes" | "indx_size" => handleIndx op j
